@@ -254,7 +254,7 @@ def run(ck: Check):
     ck.assumptions += ["decimal tolerances (1/10, 1/100) reach the code as the nearest double; on integer tables "
                        "below 2^12 the bound k*td <= (td+tn)*d has the same truth value for both"]
     plan = [("MC_ParetoTable_exh_%s.cfg" % ("t" if thorough else "q"), None, None)]
-    for i in range(4 if thorough else 1):
+    for i in range(3 if thorough else 1):
         s = ck.seed * 100 + i
         plan += [("MC_ParetoTable_rand.cfg", s, 1500 if thorough else 1000),
                  ("MC_ParetoTable_rand_big.cfg", s, 40 if thorough else 15)]
